@@ -590,6 +590,7 @@ def check_c15(pid, tier, seed, rep):
     cov = prove(pid, rep)
     tree, recs = stage_fs.c15_runs(tier)
     recs += stage_fs.natural_faults(tier)
+    recs += stage_fs.symlinked_dir_faults(tier)
     hits = [r for r in recs if r["hit"]]
     points = {}
     nviol = 0
